@@ -56,6 +56,7 @@ def callLine : Call → String
   | .edelta l b z => s!"edelta {l} {b} {z}"
   | .comment t => s!"comment {t}"
   | .section i => s!"section {i}"
+  | .cpoolnode l a b => s!"cpoolnode {l} {a} {b}"     -- a Compiler's ConstPoolNode (never produced by the C14 sessions)
 
 def stepLine (s : St) (ws : List String) : St × String :=
   match ws with
